@@ -1,9 +1,9 @@
 (* MergeHelpers.v — the exported building blocks of integrate/merge_zoom.go as stand-alone API, as the code is written:
-   NewUnitDividedSpatialID (enumerate unit cells into a map), NewHighSpatialID (ancestor by Higher, threshold, lowIDs, and the unit
-   map of its argument BY REFERENCE), HighSpatialID.Merge (append lowIDs, write the argument's unit IDs into the receiver's map),
+   NewUnitDividedSpatialID (enumerate unit cells into a map), NewHighSpatialID (ancestor by Higher, threshold, lowIDs, and a COPY of the
+   unit map of its argument), HighSpatialID.Merge (append lowIDs, write the argument's unit IDs into the receiver's map),
    (HighSpatialID).IsDense (len(unitIDs) == threshold).
-   Maps are heap cells (index into `heap`), so the aliasing the code creates is in the model: a HighSpatialID shares the cell of the
-   UnitDividedSpatialID it was built from, and Merge writes into that cell. A map of ID strings is a duplicate-free list of cells
+   Maps are heap cells (index into `heap`). Since /repo 06056a1 NewHighSpatialID COPIES the unit map of its argument into a fresh cell,
+   so Merge (which writes into the receiver's cell) never touches the constructor's argument nor any other object. A map of ID strings is a duplicate-free list of cells
    (ID() prints injectively on int64 fields). *)
 From Coq Require Import ZArith Lia List Bool Permutation String.
 From SID Require Import Base Str Ids ZoomCore Wire Merge MergeCheck MergeProof.
@@ -37,7 +37,7 @@ Proof. rewrite uunion_In. tauto. Qed.
 Record unitd := { u_id : eid; u_hd : Z; u_vd : Z; u_map : nat }.
 Record high := { g_id : eid; g_thr : Z; g_low : list eid; g_map : nat }.
 Definition high0 : high := {| g_id := mk 0 0 0 0 0; g_thr := 0; g_low := []; g_map := 0 |}.
-Record st := { heap : list (list eid); highs : list high }.
+Record st := { heap : list (list eid); highs : list high; n_units : nat }.
 
 Fixpoint upd {A} (n : nat) (x : A) (l : list A) : list A :=
   match l, n with
@@ -52,17 +52,19 @@ Proof. revert n. induction l as [|a t IH]; intros [|k] Hn; cbn in *; try lia; au
 Lemma nth_upd_other {A} n m (x d : A) l : n <> m -> nth m (upd n x l) d = nth m l d.
 Proof. revert n m. induction l as [|a t IH]; intros [|k] [|j] Hn; cbn; auto; try congruence. Qed.
 
-(* NewHighSpatialID(u, hDiff, vDiff): Higher, threshold = (2^(hDiff+u.hDiff))^2 * 2^(vDiff+u.vDiff), lowIDs = [u.ID()], unitIDs = u.unitIDs (alias) *)
-Definition new_high (u : unitd) (hd vd : Z) : high :=
+(* NewHighSpatialID(u, hDiff, vDiff): Higher, threshold = (2^(hDiff+u.hDiff))^2 * 2^(vDiff+u.vDiff), lowIDs = [u.ID()],
+   unitIDs = a copy of u.unitIDs in the fresh heap cell `cell` (the caller stores the copy there) *)
+Definition new_high (u : unitd) (hd vd : Z) (cell : nat) : high :=
   let a := 2 ^ (hd + u_hd u) in let b := 2 ^ (vd + u_vd u) in
-  {| g_id := higher (u_id u) hd vd; g_thr := a * a * b; g_low := [u_id u]; g_map := u_map u |}.
+  {| g_id := higher (u_id u) hd vd; g_thr := a * a * b; g_low := [u_id u]; g_map := cell |}.
 
 Definition hunits (s : st) (k : nat) : list eid := nth (g_map (nth k (highs s) high0)) (heap s) [].
 (* r.Merge(s): r.lowIDs = append(r.lowIDs, s.lowIDs...); for k := range s.unitIDs { r.unitIDs[k] = struct{}{} } *)
 Definition merge_op (s : st) (r a : nat) : st :=
   let hr := nth r (highs s) high0 in let ha := nth a (highs s) high0 in
   {| heap := upd (g_map hr) (uunion (nth (g_map hr) (heap s) []) (nth (g_map ha) (heap s) [])) (heap s);
-     highs := upd r {| g_id := g_id hr; g_thr := g_thr hr; g_low := g_low hr ++ g_low ha; g_map := g_map hr |} (highs s) |}.
+     highs := upd r {| g_id := g_id hr; g_thr := g_thr hr; g_low := g_low hr ++ g_low ha; g_map := g_map hr |} (highs s);
+     n_units := n_units s |}.
 (* IsDense: int64(len(r.unitIDs)) == r.threshold *)
 Definition is_dense (s : st) (k : nat) : bool := Z.of_nat (List.length (hunits s k)) =? g_thr (nth k (highs s) high0).
 
@@ -114,7 +116,7 @@ Section Compose.
   Record hp := { p_id : eid; p_thr : Z; p_low : list eid; p_cells : list eid }.
   Definition mk_hp (i : eid) : hp :=
     let u := {| u_id := i; u_hd := MH - eh i; u_vd := MV - ev i; u_map := O |} in
-    let h := new_high u (eh i - H) (ev i - V) in
+    let h := new_high u (eh i - H) (ev i - V) O in
     {| p_id := g_id h; p_thr := g_thr h; p_low := g_low h; p_cells := nodupb eid_eqb (units_d i (MH - eh i) (MV - ev i)) |}.
   Definition hp_merge (r a : hp) : hp :=
     {| p_id := p_id r; p_thr := p_thr r; p_low := p_low r ++ p_low a; p_cells := uunion (p_cells r) (p_cells a) |}.
@@ -161,11 +163,80 @@ End Compose.
    [ID; threshold; lowIDs; sorted unit IDs; IsDense] and for every unit its sorted unit IDs. *)
 Definition uspec := (eid * Z * Z)%type.
 Definition hspec := (nat * Z * Z)%type.
+(* ---- the embedded ID: since /repo 24349d1 NewUnitDividedSpatialID keeps its OWN COPY of the *ExtendedSpatialID argument, so the
+   setters promoted to the unit object (SetX, SetZoom, ...) write the copy and never the caller's object.
+   orig = the caller's objects, own = the copies held by the unit objects; a setter step (unit j, x, hZoom, vZoom) performs
+   u.SetX(x); u.SetZoom(hZoom, vZoom) on unit j. ---- *)
+Record ids_st := { orig : list eid; own : list eid }.
+Definition sspec := (nat * Z * Z * Z)%type.
+Definition init_ids (us : list uspec) : ids_st := let l := map (fun '(i, _, _) => i) us in {| orig := l; own := l |}.
+Definition set_unit (s : ids_st) (sp : sspec) : ids_st :=
+  let '(j, x, hz, vz) := sp in
+  let i := nth j (own s) (mk 0 0 0 0 0) in
+  {| orig := orig s; own := upd j {| eh := hz; ex := x; ey := ey i; ev := vz; ef := ef i |} (own s) |}.
+Definition run_sets (us : list uspec) (sets : list sspec) : ids_st := fold_left set_unit sets (init_ids us).
+(* C04 helpers: setters on a constructed unit object leave every argument object unchanged, and change only that unit's own copy *)
+Theorem set_unit_orig s sp : orig (set_unit s sp) = orig s.
+Proof. destruct sp as [[[j x] hz] vz]. reflexivity. Qed.
+Theorem run_sets_orig us sets : orig (run_sets us sets) = map (fun '(i, _, _) => i) us.
+Proof.
+  unfold run_sets. assert (G : forall s, orig (fold_left set_unit sets s) = orig s).
+  { induction sets as [|sp t IH]; intros s; cbn [fold_left]; [reflexivity|]. now rewrite IH, set_unit_orig. }
+  now rewrite G.
+Qed.
+Theorem set_unit_own s j x hz vz : (j < List.length (own s))%nat ->
+  nth j (own (set_unit s (j, x, hz, vz))) (mk 0 0 0 0 0) =
+    (let i := nth j (own s) (mk 0 0 0 0 0) in {| eh := hz; ex := x; ey := ey i; ev := vz; ef := ef i |}) /\
+  forall k, k <> j -> nth k (own (set_unit s (j, x, hz, vz))) (mk 0 0 0 0 0) = nth k (own s) (mk 0 0 0 0 0).
+Proof.
+  intros L. cbn [set_unit own]. split; [now rewrite nth_upd_same|]. intros k N. now rewrite nth_upd_other by congruence.
+Qed.
+Definition final_val (us : list uspec) (sets : list sspec) : val :=
+  let s := run_sets us sets in VL [of_LS (map print_eid (orig s)); of_LS (map print_eid (own s))].
+
 Definition init_st (us : list uspec) (hs : list hspec) : st :=
   let heap0 := map (fun '(i, hd, vd) => nodupb eid_eqb (units_d i hd vd)) us in
   let uobj := map (fun '(k, (i, hd, vd)) => {| u_id := i; u_hd := hd; u_vd := vd; u_map := k |}) (combine (seq 0 (List.length us)) us) in
-  {| heap := heap0;
-     highs := map (fun '(k, hd, vd) => new_high (nth k uobj {| u_id := mk 0 0 0 0 0; u_hd := 0; u_vd := 0; u_map := O |}) hd vd) hs |}.
+  let nu := List.length us in
+  {| heap := heap0 ++ map (fun '(k, _, _) => nth k heap0 []) hs;     (* one fresh cell per high, holding a copy *)
+     highs := map (fun '(j, (k, hd, vd)) => new_high (nth k uobj {| u_id := mk 0 0 0 0 0; u_hd := 0; u_vd := 0; u_map := O |}) hd vd (nu + j))
+                  (combine (seq 0 (List.length hs)) hs);
+     n_units := nu |}.
+(* every object owns its map: unit j owns cell j, high k owns the fresh cell n_units + k *)
+Definition fresh_maps (s : st) : Prop :=
+  List.length (heap s) = (n_units s + List.length (highs s))%nat /\
+  forall k, (k < List.length (highs s))%nat -> g_map (nth k (highs s) high0) = (n_units s + k)%nat.
+Lemma init_fresh us hs : fresh_maps (init_st us hs).
+Proof.
+  unfold fresh_maps, init_st. cbn [heap highs n_units]. split.
+  - rewrite app_length, !map_length, combine_length, seq_length, Nat.min_id. reflexivity.
+  - intros k Hk. rewrite map_length, combine_length, seq_length, Nat.min_id in Hk.
+    set (f := fun '(j, (k0, hd, vd)) => new_high _ hd vd (List.length us + j)).
+    rewrite (nth_indep (map f _) high0 (f (O, (O, 0, 0)))) by (rewrite map_length, combine_length, seq_length, Nat.min_id; exact Hk).
+    rewrite map_nth, combine_nth by apply seq_length. rewrite seq_nth by exact Hk.
+    assert (G : forall j sp, g_map (f (j, sp)) = (List.length us + j)%nat) by (intros j [[a b] c]; reflexivity).
+    rewrite G. reflexivity.
+Qed.
+Lemma merge_op_fresh s r a : fresh_maps s -> fresh_maps (merge_op s r a).
+Proof.
+  intros [A B]. split.
+  - unfold merge_op. cbn [heap highs n_units]. now rewrite !upd_length.
+  - intros k Hk. rewrite merge_op_map. unfold merge_op in *. cbn [heap highs n_units] in *. rewrite upd_length in Hk. now apply B.
+Qed.
+(* C04 helpers (after /repo 06056a1): r.Merge(a) puts the union into the receiver and changes NO other object — not the argument,
+   not any other HighSpatialID, not any UnitDividedSpatialID (in particular not the ones the objects were constructed from) *)
+Theorem merge_op_isolated s r a : fresh_maps s -> (r < List.length (highs s))%nat ->
+  hunits (merge_op s r a) r = uunion (hunits s r) (hunits s a) /\
+  (forall k, k <> r -> (k < List.length (highs s))%nat -> hunits (merge_op s r a) k = hunits s k) /\
+  (forall j, (j < n_units s)%nat -> nth j (heap (merge_op s r a)) [] = nth j (heap s) []).
+Proof.
+  intros [A B] Hr.
+  assert (L : (g_map (nth r (highs s) high0) < List.length (heap s))%nat) by (rewrite (B r Hr), A; lia).
+  destruct (merge_op_spec s r a L) as (E & _ & _ & O & _). split; [exact E|]. split.
+  - intros k N Hk. apply O. rewrite (B k Hk), (B r Hr). lia.
+  - intros j Hj. unfold merge_op. cbn [heap]. rewrite nth_upd_other; [reflexivity|]. rewrite (B r Hr). lia.
+Qed.
+
 Fixpoint run_ops (s : st) (ops : list (nat * nat)) : list st :=
   match ops with
   | [] => [s]
@@ -176,9 +247,9 @@ Definition snapshot (s : st) : val :=
   VL [VL (map (fun k => let h := nth k (highs s) high0 in
                  VL [VS (print_eid (g_id h)); VZ (g_thr h); of_LS (map print_eid (g_low h)); cells_val (hunits s k); VB (is_dense s k)])
               (seq 0 (List.length (highs s))));
-      VL (map cells_val (heap s))].
-Definition script_model (us : list uspec) (hs : list hspec) (ops : list (nat * nat)) : val :=
-  VL (map snapshot (run_ops (init_st us hs) ops)).
+      VL (map cells_val (firstn (n_units s) (heap s)))].
+Definition script_model (us : list uspec) (hs : list hspec) (ops : list (nat * nat)) (sets : list sspec) : val :=
+  VL (map snapshot (run_ops (init_st us hs) ops) ++ [final_val us sets]).
 
 Fixpoint val_eqb (a b : val) : bool :=
   match a, b with
@@ -197,16 +268,17 @@ Fixpoint val_eqb (a b : val) : bool :=
   end.
 
 (* script well-formedness shared with the harness: indices in range, differences small, few cells *)
-Definition script_ok (us : list uspec) (hs : list hspec) (ops : list (nat * nat)) : bool :=
+Definition script_ok (us : list uspec) (hs : list hspec) (ops : list (nat * nat)) (sets : list sspec) : bool :=
+  (Nat.leb (List.length sets) 4) &&
+  forallb (fun '(j, x, hz, vz) => Nat.ltb j (List.length us) && (Z.abs x <? 2 ^ 40) && (Z.abs hz <? 64) && (Z.abs vz <? 64)) sets &&
   (Nat.leb (List.length us) 6) && (Nat.leb (List.length hs) 6) && (Nat.leb (List.length ops) 10) &&
   forallb (fun '(i, hd, vd) => small_fields i && (-2 <=? hd) && (hd <=? 3) && (-2 <=? vd) && (vd <=? 4)) us &&
   forallb (fun '(k, hd, vd) => Nat.ltb k (List.length us) && (0 <=? hd) && (hd <=? 6) && (0 <=? vd) && (vd <=? 6)) hs &&
   forallb (fun '(r, a) => Nat.ltb r (List.length hs) && Nat.ltb a (List.length hs)) ops.
 
 (* ---- property verdict computed from the observations alone (consecutive snapshots): construction is the dyadic reference,
-   every Merge puts the union into the receiver, leaves every object that was not built from the receiver's unit object literally
-   unchanged — in particular the ARGUMENT —, lets an object built from the receiver's unit object show either the union (shared map,
-   as the code does) or its old set, appends the lowIDs, keeps IDs and thresholds, and IsDense = (count == threshold) ---- *)
+   every Merge puts the union into the receiver and leaves EVERY other object literally unchanged — the argument, every other
+   HighSpatialID, every UnitDividedSpatialID —, appends the lowIDs, keeps IDs and thresholds, and IsDense = (count == threshold) ---- *)
 Definition hobs := (string * Z * list string * list string * bool)%type.
 Definition dec_high (v : val) : option hobs :=
   match v with
@@ -260,7 +332,6 @@ Definition init_ok (us : list uspec) (hs : list hspec) (sn : list hobs * list (l
 Definition step_ok (hs : list hspec) (op : nat * nat) (p n : list hobs * list (list string)) : bool :=
   let '(r, a) := op in
   let '(hp, up) := p in let '(hn, un) := n in
-  let mr := fst (fst (nth r hs (O, 0, 0))) in
   let uni := set_of (h_units (nth r hp hobs0) ++ h_units (nth a hp hobs0)) in
   Nat.eqb (List.length hn) (List.length hp) && Nat.eqb (List.length un) (List.length up) &&
   forallb (fun k =>
@@ -268,23 +339,30 @@ Definition step_ok (hs : list hspec) (op : nat * nat) (p n : list hobs * list (l
              String.eqb (h_id hk') (h_id hk) && (h_thr hk' =? h_thr hk) &&
              (if Nat.eqb k r then strs_eqb (h_low hk') (h_low hk ++ h_low (nth a hp hobs0)) else strs_eqb (h_low hk') (h_low hk)) &&
              (if Nat.eqb k r then strs_eqb (set_of (h_units hk')) uni && nodup_strings (h_units hk')
-              else if Nat.eqb (fst (fst (nth k hs (O, 0, 0)))) mr
-                   (* built from the same unit object as the receiver: the code shares the map (union); a copy (unchanged) would also do *)
-                   then (strs_eqb (set_of (h_units hk')) uni && nodup_strings (h_units hk')) || strs_eqb (h_units hk') (h_units hk)
-                   else strs_eqb (h_units hk') (h_units hk)) &&
+              else strs_eqb (h_units hk') (h_units hk)) &&
              dense_ok hk') (seq 0 (List.length hp)) &&
-  forallb (fun j => if Nat.eqb j mr then strs_eqb (set_of (nth j un [])) uni || strs_eqb (nth j un []) (nth j up [])
-                    else strs_eqb (nth j un []) (nth j up [])) (seq 0 (List.length up)).
+  forallb (fun j => strs_eqb (nth j un []) (nth j up [])) (seq 0 (List.length up)).
 Fixpoint steps_ok (hs : list hspec) (ops : list (nat * nat)) (sn : list (list hobs * list (list string))) : bool :=
   match ops, sn with
   | [], [_] => true
   | op :: t, p :: ((n :: _) as rest) => step_ok hs op p n && steps_ok hs t rest
   | _, _ => false
   end.
-Definition script_prop (us : list uspec) (hs : list hspec) (ops : list (nat * nat)) (obs : val) : bool :=
+(* after the setter steps: every argument object still prints as it was given; the unit objects print with the fields set *)
+Definition final_ok (us : list uspec) (sets : list sspec) (v : val) : bool :=
+  match v with
+  | VL [o; w] =>
+      match as_LS o, as_LS w with
+      | Some o, Some w => strs_eqb o (map (fun '(i, _, _) => print_eid i) us) && strs_eqb w (map print_eid (own (run_sets us sets)))
+      | _, _ => false
+      end
+  | _ => false
+  end.
+Definition script_prop (us : list uspec) (hs : list hspec) (ops : list (nat * nat)) (sets : list sspec) (obs : val) : bool :=
   match as_L obs with
   | Some l =>
-      match all_opt (map dec_snap l) with
+      final_ok us sets (last l VNil) &&
+      match all_opt (map dec_snap (removelast l)) with
       | Some (s0 :: rest) => init_ok us hs s0 && steps_ok hs ops (s0 :: rest)
       | _ => false
       end
@@ -301,5 +379,5 @@ Example ex_sequence :
   let sts := run_ops (init_st ex_units ex_highs) ex_ops in
   let fin := last sts (init_st [] []) in
   is_dense fin 7 = true /\ is_dense fin 8 = true /\ is_dense fin 0 = false /\ List.length (hunits fin 0) = 7%nat /\
-  script_prop ex_units ex_highs ex_ops (script_model ex_units ex_highs ex_ops) = true.
+  script_prop ex_units ex_highs ex_ops [(O, 5, 3, 4)] (script_model ex_units ex_highs ex_ops [(O, 5, 3, 4)]) = true.
 Proof. vm_compute. repeat split; reflexivity. Qed.
